@@ -6,7 +6,7 @@ from .. import inputs
 from . import geom
 
 SPEC = dict(
-    lean_modules=['SmVerif.Props.C07'],
+    lean_modules=['SmVerif.Props.C07', 'SmVerif.Props.VecPreds'],
     groups=['TransformsNd', 'Transforms3d', 'Transforms2d', 'Vectors', 'Quaternions'],
     expected_untranslatable=('trinterp_T', 'trinterp_T_nostart'),
     partial=['"residual small => distance to the group small" (polar decomposition) is not proved: the 1e-6 band around each '
